@@ -93,6 +93,11 @@ CHECKS.update({
          "Faults: truncation at every offset, XOR of every byte with 0xFF/0x01/0x80, every 4-byte window overwritten with 65536 / 2^31 / 2^32-1, the first three length tokens set to 0 / n-1 / n+1 / 65536 / 2^31 / 2^32-1, unknown message name - applied to a valid envelope of every message type in the real wire registry, to a cluster view and to primitive / slice / array / struct encodings (quick: a seed-shifted stride of 7 over the offsets; thorough: every offset, plus all-extreme encodings). Encode side: int, uint, uintptr, complex, map, chan, func, nil interface, named integer, nil pointers, structs with such fields, nil and non-pointer messages, the zero value (all fields nil) of every registered message. CodecMon: outcome is value or error (panic, time-out, stack overflow, out of memory are violations), allocation <= 32 MiB + 64 x input, a failed decode leaves the caller's pre-filled target untouched.",
          "Fault classes over valid encodings, not all byte strings; the frame level (connection length prefix, 4 MiB limit) is exercised in C14; allocation is measured with runtime.MemStats in a single-purpose child.",
          "§5 C13"),
+ "C20": ("model_checking",
+         "TLA+ spec Sched (shared timer queue keyed by a derived job key, per-actor reference table, Once/Loop/invalid Cron/Cancel/Clear/Kill/Restart/Fire/Tick on a discrete clock), TLC exhaustive; TLC-simulated behaviours replayed on real actor systems in real time (one clock value = 100 ms); timestamped traces validated by TLC against SchedMon",
+         "TLC checks that queued jobs always belong to a live owner in the incarnation that scheduled them, that keys are unique and denote one (owner, reference), that firings are on time, that Cancel answers not-found exactly for unknown references and that an API call on one actor never changes another actor's jobs - for the key derivation of record, and (self-test) shows the concatenated key violating them. Simulated behaviours (two families: plain names, names and references containing ':') are executed by scripted actors under a restarting supervisor; a hook marks the start of every firing. SchedMon: not before the n-th instant, once fires/delivers once, nothing fires/arrives after cancel / clear / death / restart (beyond a grace for a firing already under way), invalid Cron is a parse error and schedules nothing, Cancel answers, dead letter only for a dead receiver, original value, delivery to the named receiver, and lower bounds (what was due while the job lived has arrived).",
+         "Real time: go-quartz (third party) owns the clock; a run is judged only if a canary timer was never more than 25 ms late; grace 35 ms (firing hook) / 150 ms (delivery), slack 45 ms for lower bounds, so a cancellation within a few milliseconds of the firing instant is tolerated either way.",
+         "§5 C20"),
 })
 
 NOT_YET = {
